@@ -1528,6 +1528,11 @@ def index(base, i):
     if isinstance(base, Sym) and base.op == 'cond':
         return cond(base.args[0], index(base.args[1], i),
                     index(base.args[2], i))
+    if isinstance(base, Sym) and base.op == 'method' and \
+            base.args[1] == 'as_tuple' and i in (0, 1, 2, -1, -2, -3):
+        # decimal.DecimalTuple(sign, digits, exponent): positions and field
+        # names denote the same components
+        return Sym('attr', base, ('sign', 'digits', 'exponent')[i])
     return Sym('index', base, i)
 
 
